@@ -147,6 +147,50 @@ class Worker:
         return out
 
 
+def fixture_worker(files):
+    """every formula cell of the repository's fixture workbooks, loaded and evaluated BY THE LIBRARY under the local-consistency
+    recorder: one event per evaluated formula cell (nested evaluations included)"""
+    from harness import evalrec
+    L = xl.lib()
+    with evalrec.LocalRecorder() as rec:
+        for f in files:
+            try:
+                m = L.ModelCompiler().read_and_parse_archive(f)
+            except BaseException as e:      # noqa
+                if isinstance(e, (KeyboardInterrupt, SystemExit)):
+                    raise
+                rec.skipped['unreadable-workbook'] += 1
+                continue
+            ev = L.Evaluator(m)
+            for a in list(m.formulae):
+                try:
+                    ev.evaluate(a)
+                except BaseException as e:      # noqa
+                    if isinstance(e, (KeyboardInterrupt, SystemExit)):
+                        raise
+                    rec.skipped['evaluation-raised'] += 1
+    for e in rec.events:
+        e['file'] = os.path.basename(files[0]) if len(files) == 1 else ''
+    return rec.events, dict(rec.skipped)
+
+
+def fixture_local_consistency(run):
+    import glob
+    from harness import evalrec
+    files = sorted(glob.glob(os.path.join(xl.REPO, 'tests', 'resources', '*.xlsx')))
+    events, skipped = [], {}
+    for evs, sk in pool.pmap(fixture_worker, files, nchunks=len(files)):
+        events += evs
+        for k, v in sk.items():
+            skipped[k] = skipped.get(k, 0) + v
+    run.evaluations += len(events)
+    verdicts = evalrec.validate(run, events, name='fixtures')
+    run.notes['fixture_workbooks'] = len(files)
+    run.notes['fixture_local_consistency'] = {'events': len(events), 'verdicts': dict(verdicts), 'skipped': skipped}
+    if verdicts.get('ok', 0) < 200:
+        raise xl.MachineryError(f'local consistency of the fixture workbooks is vacuous: {dict(verdicts)}')
+
+
 def bug_counta_limit(d):
     """COUNTA over more than 256 cells gives #VALUE! (limit applied to cells, pinned by test_statistics)"""
     f = d['features']
@@ -183,11 +227,14 @@ def run(run):
         for d in res['dis']:
             run.disagree('probe', d['case'], d['exp'], d['obs'], d['features'], clause=d['clause'])
     run.notes['cases_by_family'] = kinds
+    # code -> spec: the fixture workbooks, evaluated by the library; every evaluated formula is judged by TLC (Trace_Local)
+    fixture_local_consistency(run)
     run.rule = ('cases = done-states of MC_C03: every target cell x $ spelling x qualification from a probe on every sheet; every '
                 'rectangle x SUM/COUNTA x sheets, dense and with every sparse pattern of a 2x2 sub-block; cross-sheet chains; strips with '
                 'long blank runs; multi-letter columns; names bound to cells and ranges; resolve_ranges. Each workbook is built twice: '
                 'read_and_parse_dict and an .xlsx written by harness/xlsxwriter_min.py. Cell values are distinct powers of two, so a sum '
-                'reveals which cells were read')
+                'reveals which cells were read; plus every formula cell of tests/resources/*.xlsx evaluated under the '
+                'local-consistency recorder (value = the specification\'s function of the values of the directly addressed cells)')
     run.exhaustive = True
 
 
